@@ -21,6 +21,7 @@
 #include <cstring>
 #include <fstream>
 #include <iostream>
+#include <list>
 #include <new>
 #include <sstream>
 #include <string>
@@ -138,11 +139,22 @@ static unsigned char g_tagctr = 0;
 static unsigned char next_tag() { g_tagctr = (unsigned char)(g_tagctr % 250 + 1); return g_tagctr; }
 static unsigned g_alt = 0;               // alternates between overloads (hint / no hint, construct(const T&) / construct(Args...))
 alignas(64) static char g_foreign_buf[256];   // "a pointer that never came from the allocator"
+static const void* g_hint = g_foreign_buf;    // hint argument of allocate(n, hint): a foreign address or (aliasing) a LIVE block of the same allocator
+static const void* g_alias_src = nullptr;     // construct(p, *q) with q a live block of the same allocator (value taken from allocator-owned storage)
+static void set_alias(const std::vector<LiveBlk>& live) {
+  g_hint = g_foreign_buf; g_alias_src = nullptr;
+  if (!live.empty() && (g_alt % 3) != 0) g_hint = live.back().p;
+  if (!live.empty() && live.back().tagged && live.back().bytes > 0 && (g_alt % 5) >= 3) g_alias_src = live.back().p;
+}
 
 // construct one T at p through the allocator (alternating the two overloads where both exist) and check it landed at p
-template<class A, class T> static std::string do_construct(A& a, T* p, unsigned char tag) {
+template<class A, class T> static std::string do_construct(A& a, T* p, unsigned char& tag) {
   std::string fl; long c0 = g_ctor;
-  if ((g_alt++ & 1) == 0) { T v(tag); a.construct(p, v); }       // construct(pointer, const T&)
+  if (g_alias_src && g_alias_src != (const void*)p) {            // value aliasing storage of the same allocator
+    const T& src = *(const T*)g_alias_src; tag = src.d[0]; a.construct(p, src); ++g_alt;
+    for (std::size_t i = 0; i < sizeof(T); ++i) if (src.d[i] != tag) { fl += "!construct-clobbered-source"; break; }
+  }
+  else if ((g_alt++ & 1) == 0) { T v(tag); a.construct(p, v); }  // construct(pointer, const T&)
   else {
     if constexpr (requires { a.construct(p, tag); }) a.construct(p, tag);   // construct(pointer, Args&&...)
     else { T v(tag); a.construct(p, v); }
@@ -162,7 +174,7 @@ template<class A, class T> static std::string do_destroy(A& a, T* p) {
 struct PoolVT {
   long geom[6]; std::size_t sT, aT, objsize, objalign; bool is_pa;
   void (*create)(void*); void* (*alloc)(void*, std::size_t); void (*dealloc)(void*, void*, std::size_t); void (*destroy)(void*);
-  std::string (*construct)(void*, void*, unsigned char); std::string (*destruct)(void*, void*);
+  std::string (*construct)(void*, void*, unsigned char&); std::string (*destruct)(void*, void*);
   std::string (*copy_probe)(void*, int); int (*print_tokens)(void*);
   void (*copy)(void*, void*); int (*equal)(void*, void*);
 };
@@ -173,7 +185,7 @@ template<class T, std::size_t S> PoolVT vt_pool() {
     [](void* s, std::size_t n) -> void* { if (n != 1) throw std::bad_alloc(); return ((P*)s)->allocate(); },
     [](void* s, void* p, std::size_t) { ((P*)s)->free(p); },
     [](void* s) { ((P*)s)->~P(); },
-    [](void*, void* p, unsigned char tag) -> std::string { std::memset(p, tag, sizeof(T)); return ""; },
+    [](void*, void* p, unsigned char& tag) -> std::string { std::memset(p, tag, sizeof(T)); return ""; },
     [](void*, void*) -> std::string { return ""; },
     [](void*, int) -> std::string { return "NO-COPY"; },
     [](void* s) -> int { std::ostringstream os; ((P*)s)->print(os); std::istringstream is(os.str()); std::string t; int k = 0; while (is >> t) ++k; return k; },
@@ -199,16 +211,17 @@ template<class T, std::size_t s> PoolVT vt_pa() {
   using P = typename A::PoolType;
   PoolVT v{{P::unionSize, P::size, P::alignment, P::alignedSize, P::chunkSize, P::elements}, sizeof(T), alignof(T), sizeof(A), alignof(A), true,
     [](void* b) { new (b) A; },
-    [](void* self, std::size_t n) -> void* { return (g_alt++ & 1) ? ((A*)self)->allocate(n) : ((A*)self)->allocate(n, (const T*)g_foreign_buf); },
+    [](void* self, std::size_t n) -> void* { return (g_alt++ & 1) ? ((A*)self)->allocate(n) : ((A*)self)->allocate(n, (const T*)g_hint); },
     [](void* self, void* p, std::size_t n) { ((A*)self)->deallocate((T*)p, n); },
     [](void* self) { ((A*)self)->~A(); },
-    [](void* self, void* p, unsigned char tag) -> std::string { return do_construct(*(A*)self, (T*)p, tag); },
+    [](void* self, void* p, unsigned char& tag) -> std::string { return do_construct(*(A*)self, (T*)p, tag); },
     [](void* self, void* p) -> std::string { return do_destroy(*(A*)self, (T*)p); },
     [](void* self, int k) -> std::string {
       A& a = *(A*)self; std::string fl;
       rec::foreign = true;
       if (k == 0) { A c(a); fl = probe_copy(c); }                                                   // copy constructor
       else if (k == 1) { Dune::PoolAllocator<OtherType, 3> o; A c(o); fl = probe_copy(c); }          // converting constructor
+      else if (k == 3) { A c(std::move(a)); fl = probe_copy(c); }                                   // "move" construction: the source keeps its pool
       else { typename A::template rebind<OtherType>::other r(a); fl = probe_copy(r); }              // rebind + converting constructor
       rec::foreign = false;
       if (rec::foreign_live != 0) fl += "!copy-leaks";
@@ -235,6 +248,7 @@ static void run_multi(const PoolVT& v, const std::vector<MOp>& ops) {
     if (op.k == 'A') {
       int j = (int)op.a; void* p = nullptr; std::string tok;
       if (j >= nal) { emit("BADCASE"); continue; }
+      set_alias(live[j]);
       rec::cur_owner = j; rec::on = true;
       try { p = v.alloc(arena[j], op.b); } catch (std::bad_alloc&) { tok = "bad_alloc"; } catch (...) { tok = "EXC-other"; }
       rec::on = false;
@@ -296,6 +310,7 @@ static void run_pool(const PoolVT& v, const std::vector<Op>& ops) {
   for (const Op& op : ops) {
     if (op.k == 'a') {
       void* p = nullptr; std::string tok;
+      set_alias(live);
       rec::on = true;
       try { p = v.alloc(buf, op.n); } catch (std::bad_alloc&) { tok = "bad_alloc"; } catch (...) { tok = "EXC-other"; }
       rec::on = false;
@@ -383,9 +398,9 @@ template<class A> static A make_other() {
 template<class A> SysVT vt_sys(std::size_t promised) {
   using T = typename A::value_type;
   return SysVT{sizeof(T), alignof(T), promised,
-    [](unsigned long long n) -> void* { A a; return (g_alt++ & 1) ? a.allocate(n) : a.allocate(n, (const void*)g_foreign_buf); },
+    [](unsigned long long n) -> void* { A a; return (g_alt++ & 1) ? a.allocate(n) : a.allocate(n, (const void*)g_hint); },
     [](void* p, unsigned long long n) { A b = make_other<A>(); b.deallocate((T*)p, n); },
-    [](void* p, unsigned char tag) -> std::string { A a; return do_construct(a, (T*)p, tag); },
+    [](void* p, unsigned char tag) -> std::string { A a; unsigned char t = tag; g_alias_src = nullptr; return do_construct(a, (T*)p, t); },
     [](void* p) -> std::string { A a; return do_destroy(a, (T*)p); },
     [](void* p, unsigned long long n) { typename A::template rebind<OtherType>::other w; w.deallocate((OtherType*)p, n); },
     [](std::vector<LiveBlk>&) {}};
@@ -415,6 +430,7 @@ static void run_sys(const SysVT& v, const std::vector<Op>& ops, int mode, unsign
   for (const Op& op : ops) {
     if (op.k == 'a') {
       void* p = nullptr; std::string tok;
+      set_alias(live);
       try { p = v.alloc(op.n); } catch (std::bad_alloc&) { tok = "bad_alloc"; } catch (...) { tok = "EXC-other"; }
       if (tok.empty()) {
         unsigned __int128 wide = (unsigned __int128)op.n * v.sT;
@@ -487,6 +503,70 @@ static void run_sys(const SysVT& v, const std::vector<Op>& ops, int mode, unsign
   v.finish(live);
 }
 
+// ------------------------------------------------------------------ the allocators in their real role: std::list / std::vector through allocator_traits
+#ifdef C15_WITH_STL
+template<class C> static std::string stl_check(const C& c, const std::vector<unsigned char>& ref) {
+  using T = typename C::value_type; std::string fl;
+  if (c.size() != ref.size()) return "!size";
+  std::size_t i = 0;
+  for (const T& x : c) {
+    if ((std::uintptr_t)&x % alignof(T)) { fl += "!misaligned"; break; }
+    bool ok = true; for (std::size_t k = 0; k < sizeof(T); ++k) if (x.d[k] != ref[i]) ok = false;
+    if (!ok) { fl += "!content"; break; }
+    ++i;
+  }
+  return fl;
+}
+// ops: p<v> push_back, q pop (list: front, vector: back), e<i> erase i-th, i<i>.<v> insert before i-th, c clear, y copy-construct + compare,
+//      g copy-assign into a non-empty container + compare, m move-construct (stateless allocators only) and move back
+template<class C, bool Movable> static void run_stl(const std::vector<Op>& ops) {
+  using T = typename C::value_type;
+  alignas(64) static char cbuf[sizeof(C)];
+  rec::on = true; C* c = new (cbuf) C; rec::on = false;
+  std::vector<unsigned char> ref;
+  ref.reserve(ops.size() + 1);
+  for (const Op& op : ops) {
+    std::string fl;
+    // reference sequence first (no recording: it uses the global operator new)
+    bool doit = true;
+    if (op.k == 'p') ref.push_back((unsigned char)op.n);
+    else if (op.k == 'q') { if (ref.empty()) doit = false; else { if constexpr (requires { c->pop_front(); }) ref.erase(ref.begin()); else ref.pop_back(); } }
+    else if (op.k == 'e') { if (op.n < ref.size()) ref.erase(ref.begin() + op.n); else doit = false; }
+    else if (op.k == 'i') { if (op.n <= ref.size()) ref.insert(ref.begin() + op.n, (unsigned char)op.m); else doit = false; }
+    else if (op.k == 'c') ref.clear();
+    rec::on = true;
+    try {
+      if (!doit) { }
+      else if (op.k == 'p') { T v((unsigned char)op.n); c->push_back(v); }
+      else if (op.k == 'q') { if constexpr (requires { c->pop_front(); }) c->pop_front(); else c->pop_back(); }
+      else if (op.k == 'e') { auto it = c->begin(); std::advance(it, op.n); c->erase(it); }
+      else if (op.k == 'i') { auto it = c->begin(); std::advance(it, op.n); T v((unsigned char)op.m); c->insert(it, v); }
+      else if (op.k == 'c') { c->clear(); }
+      else if (op.k == 'y') { C d(*c); fl += stl_check(d, ref); }
+      else if (op.k == 'g') { C d; T v((unsigned char)7); d.push_back(v); d = *c; fl += stl_check(d, ref); }
+      else if (op.k == 'm') { if constexpr (Movable) { C d(std::move(*c)); fl += stl_check(d, ref); *c = std::move(d); } }
+    } catch (std::bad_alloc&) { fl += "!bad_alloc"; } catch (std::exception&) { fl += "!exception"; }
+    rec::on = false;
+    fl += stl_check(*c, ref);
+    emit("s" + std::to_string(ref.size()) + fl);
+  }
+  int obtained = rec::n;
+  rec::on = true; c->~C(); rec::on = false;
+  int ok = 0; for (int i = 0; i < rec::nreleased; ++i) if (rec::released[i] >= 0) ++ok;
+  emit("D" + std::to_string(ok) + "/" + std::to_string(obtained) + (rec::nreleased != ok ? "!bad-delete" : ""));
+}
+template<class T, std::size_t s> static void run_stl_pa(unsigned long long nodeS, unsigned long long nodeA, const std::vector<Op>& ops) {
+  using A = Dune::PoolAllocator<T, s>;
+  using Node = std::_List_node<T>;
+  using NA = typename std::allocator_traits<A>::template rebind_alloc<Node>;
+  using P = typename NA::PoolType;
+  if (sizeof(Node) != nodeS || alignof(Node) != nodeA) { emit("NODE-LAYOUT-MISMATCH(" + std::to_string(sizeof(Node)) + "," + std::to_string(alignof(Node)) + ")"); return; }
+  char g[160]; std::snprintf(g, sizeof g, "G%d,%d,%d,%d,%d,%d", P::unionSize, P::size, P::alignment, P::alignedSize, P::chunkSize, P::elements);
+  emit(g);
+  run_stl<std::list<T, A>, false>(ops);
+}
+#endif
+
 // ------------------------------------------------------------------ plain API: max_size, comparison operators, rebind
 template<class X, class Y> static char eqc(const X& x, const Y& y) { return (x == y) ? '1' : '0'; }
 template<class X, class Y> static char nec(const X& x, const Y& y) { return (x != y) ? '1' : '0'; }
@@ -503,6 +583,7 @@ template<class T, std::size_t s> static std::string api_pa() {
          && std::is_same_v<typename A::PoolType, Dune::Pool<T, s * sizeof(T)>> && A::size == (int)(s * sizeof(T));
   r += std::string(" rebind=") + (rb ? "1" : "0");
   r += " dbgalign=" + std::to_string((unsigned long long)Dune::debugAlignment);
+  { A mv(std::move(a)); T* q = a.allocate(1); a.deallocate(q, 1); r += std::string(" mv=") + eqc(mv, a); }   // the source of a "move" keeps working
   return r;
 }
 template<class A, class Expected> static std::string api_sys() {
@@ -512,7 +593,10 @@ template<class A, class Expected> static std::string api_sys() {
   r += eqc(a, b); r += nec(a, b); r += eqc(a, a); r += nec(a, a);
   bool rb = std::is_same_v<typename A::template rebind<OtherType>::other, Expected>;
   r += std::string(" rebind=") + (rb ? "1" : "0");
-  (void)sizeof(T);
+  // special members of the stateless allocators: move construction, copy / move assignment, swap; blocks stay interchangeable
+  { A m(std::move(b)); A as; as = a; A ms; ms = std::move(as); std::swap(ms, m);
+    T* p1 = a.allocate(3); T* p2 = m.allocate(2); ms.deallocate(p1, 3); a.deallocate(p2, 2);
+    r += std::string(" sm=") + ((m == a && !(ms != a)) ? "1" : "0"); }
   return r;
 }
 
@@ -527,7 +611,11 @@ template<std::size_t A> static bool placement_violates(void* p, int mode) {
   Dune::ViolatedAlignmentHandler old = Dune::violatedAlignmentHandler();
   Dune::violatedAlignmentHandler() = [](const char*, std::size_t, const void*) { ++g_viol; };
   if (mode == 3) { Dune::violatedAlignmentHandler() = nullptr; AN* q = new (p) AN(1.0); (void)q; Dune::violatedAlignmentHandler() = old; return false; }
-  if (mode == 0) { AN* q = new (p) AN(Dune::aligned<A>(1.0)); (void)q; if (double(*q) != 1.0) ++g_viol; }
+  if (mode == 0) {
+    if constexpr (A == Dune::debugAlignment) {            // default template arguments: AlignedNumber<T>, aligned(value)
+      Dune::AlignedNumber<double>* q = new (p) Dune::AlignedNumber<double>(Dune::aligned(1.0)); if (double(*q) != 1.0) ++g_viol;
+    } else { AN* q = new (p) AN(Dune::aligned<A>(1.0)); (void)q; if (double(*q) != 1.0) ++g_viol; }
+  }
   else { AN* q = new (p) AN[2]; (void)q; }
   Dune::violatedAlignmentHandler() = old;
   return g_viol != 0;
@@ -577,6 +665,25 @@ static void run_case(const std::string& line) {
 #undef ALIGNED
     emit("NO-SUCH-CONFIG"); return;
   }
+#ifdef C15_WITH_STL
+  if (kind == "stl") {
+    std::string what, cont; unsigned long long sT, aT; long long par; unsigned long long nodeS, nodeA;
+    is >> what >> cont >> sT >> aT >> par >> nodeS >> nodeA;
+    std::vector<Op> ops = parse_ops(is);
+#define STLPA(ST, AT, S) if (what == "pa" && sT == ST && aT == AT && par == S) { run_stl_pa<Blob<ST, AT>, S>(nodeS, nodeA, ops); return; }
+#define STLSYS(ST, AT) if (sT == ST && aT == AT && what == "malloc") { using T = Blob<ST, AT>; \
+      if (cont == "list") run_stl<std::list<T, Dune::MallocAllocator<T>>, true>(ops); else run_stl<std::vector<T, Dune::MallocAllocator<T>>, true>(ops); return; } \
+    if (sT == ST && aT == AT && what == "debug") { using T = Blob<ST, AT>; \
+      if (cont == "list") run_stl<std::list<T, Dune::DebugAllocator<T>>, true>(ops); else run_stl<std::vector<T, Dune::DebugAllocator<T>>, true>(ops); return; }
+#define STLAL(ST, AT, AL) if (what == "aligned" && sT == ST && aT == AT && par == AL) { using T = Blob<ST, AT>; using A = Dune::AlignedAllocator<T, AL>; \
+      if (cont == "list") run_stl<std::list<T, A>, true>(ops); else run_stl<std::vector<T, A>, true>(ops); return; }
+#include "configs_stl.inc"
+#undef STLPA
+#undef STLSYS
+#undef STLAL
+    emit("NO-SUCH-CONFIG"); return;
+  }
+#endif
   if (kind == "multi") {
     unsigned long long sT, aT, s; is >> sT >> aT >> s;
     std::vector<MOp> ops; std::string t;
